@@ -18,6 +18,7 @@ goal has an origin from which the node is reachable".
 
 import gc
 import random
+import time
 
 from sim import kernel
 
@@ -1163,8 +1164,14 @@ def classify_run(trace, mode):
 def shrink(trace, mode, v0):
   """ddmin over ops, keeping the same violation signature."""
   want = violation_key(v0)
+  # minimisation is a convenience: it must never cost the violation itself
+  # (a run that exceeds the per-run wall cap is dropped), so it gets a wall
+  # budget well inside that cap and returns what it has when the budget is out
+  t_end = time.time() + 20.0
 
   def test(cand_ops):
+    if time.time() > t_end:
+      return False
     t = dict(trace)
     t["ops"] = cand_ops
     try:
